@@ -164,6 +164,7 @@ def run(P, R, tier):
         R.check(okk, 'C16.a', kern, idx_def[0] if idx_def else None, 'byte and bit position are both taken from (bitmap_offset + i)', 'byte/bit position do not both include the bitmap offset')
     else:
         _bitmap_unpack_rule(P, R, ex)
+    bitmap_small_scope(P, R, ex)
     # ---------------------------------------------------------------- C16.b all public entries typed (pairing at kernel call sites)
     n_entries = 0
     for mod, cls, L in geom.ARRAYS:
@@ -274,6 +275,56 @@ def run(P, R, tier):
             R.exhaustive_sites['C16.e integer index validation n<=4, |i|<=6'] = True
             R.check(not bad, 'C16.e', gi, branch.test, f'integer indexing accepts exactly -n <= i < n and reads position i (mod n) on all {total} evaluated (n, i)',
                     f'integer indexing is wrong for {bad[:4]}', construct='integer index validation', counterexamples=bad[:8])
+
+
+def bitmap_small_scope(P, R, ex):
+    """C16.a (bounded, exhaustive within the bound): `_extract_isnull_bytemap` is interpreted by E-VEC on structural stand-ins of an Arrow array --
+    every offset 0..20 x length 0..12 x three bit patterns of a 5-byte validity bitmap (and the no-bitmap case): the answer must be
+    [bit (offset + i) is clear for i < n].  Covers the loop idiom and vectorised rewrites alike (bit order, byte window, bit/byte unit mix-ups)."""
+    import veceval
+    patterns = [[0b10110101, 0b01101110, 0b11010011, 0b00111010, 0b10011101], [0xFF, 0x00, 0xFF, 0x00, 0xFF], [0x01, 0x80, 0x7E, 0xAA, 0x55]]
+    bad, total, undec = [], 0, None
+    for pat in patterns + [None]:
+        bits = [(b >> k) & 1 for b in pat for k in range(8)] if pat is not None else None
+        for off in range(0, 21):
+            for n_ in range(0, 13):
+                if pat is not None and off + n_ > len(bits):
+                    continue
+                if pat is None and off > 0:
+                    continue
+                arr = veceval.Stub()
+                arr.offset = off
+                arr.null_count = (sum(1 for b in bits[off:off + n_] if b == 0) if bits is not None else 0)
+                arr.buffers = (lambda pat=pat: [veceval.Buf(pat) if pat is not None else None, None])
+                total += 1
+                ev = veceval.VecEval(P, ex, {ex.params[0]: arr}, n_)
+                ev.stub_len = {id(arr): n_}
+                try:
+                    ev.block(ex.node.body)
+                    got = None
+                except veceval.Returned as r_:
+                    got = r_.value
+                except veceval.Unsupported as e_:
+                    undec = str(e_)
+                    break
+                except (IndexError, TypeError, ValueError):
+                    got = 'error'
+                want = [b == 0 for b in bits[off:off + n_]] if bits is not None else [False] * n_
+                norm_got = [bool(x) for x in got] if isinstance(got, list) else got
+                if norm_got != want:
+                    bad.append({'offset': off, 'len': n_, 'bitmap': pat, 'got': norm_got if not isinstance(norm_got, list) else [int(x) for x in norm_got], 'want': [int(x) for x in want]})
+            if undec:
+                break
+        if undec:
+            break
+    if undec:
+        R.abstain('C16.a', ex, None, f'_extract_isnull_bytemap uses a construct the small-scope evaluator does not model ({undec})', construct='validity bitmap small-scope equivalence')
+        return
+    R.count('typed_ops', total)
+    R.exhaustive_sites['C16.a validity bitmap: offsets 0..20 x lengths 0..12 x 3 bit patterns'] = True
+    R.check(not bad, 'C16.a', ex, None, f'the missing mask equals the cleared bits [offset, offset + n) of the validity bitmap on all {total} evaluated (offset, length, pattern) cases',
+            f'the missing mask differs from the validity bits on {len(bad)} of {total} cases, e.g. {bad[:2]}: a sliced array reads the validity of other elements',
+            construct='validity bitmap small-scope equivalence', counterexamples=bad[:4])
 
 
 def selection_shortcuts(P, R, ga):
